@@ -50,8 +50,9 @@ impl SimData for Counter {
 
 /// What the derivative stub asks the simulator at every call.
 pub trait StubHooks {
-    /// Called once per derivative call with the time argument; `Some(e)` makes the call fail.
-    fn on_call(&self, t: f64) -> Option<UserError>;
+    /// Called once per derivative call with the time argument and the largest modulus of a
+    /// state component; `Some(e)` makes the call fail.
+    fn on_call(&self, t: f64, ymax: f64) -> Option<UserError>;
     fn problem(&self) -> Problem;
 }
 
@@ -325,7 +326,12 @@ where
     let mut buf: Vec<N> = Vec::new();
     Box::new(move |t: f64, y: &[N], data: &mut U| {
         data.touch();
-        if let Some(e) = hooks.on_call(t) {
+        // largest modulus of a component; +inf as soon as any component is not finite
+        let ymax = y.iter().fold(0.0f64, |m, v| {
+            let a = v.modulus();
+            if a.is_finite() { m.max(a) } else { f64::INFINITY }
+        });
+        if let Some(e) = hooks.on_call(t, ymax) {
             return Err(e);
         }
         rhs(hooks.problem(), t, y, &mut buf);
